@@ -22,7 +22,7 @@ func init() {
 			"tested and marked before the recursive call, or a tabled acyclicity argument backed by R16.2; R16.2 Resolve rejects cyclic common types (error returned) before any call that inlines type " +
 			"references, returns the action-hierarchy cycle check's error, and no other exported function reaches the inliner; R16.4 every single-result type assertion has, on every path, either the " +
 			"asserted kind confirmed or every other implementer of the sealed interface excluded, or its callers establish the kind (kind predicates, constant tables); R16.6 every loop is a range, " +
-			"a counter loop, a queue drain with bounded pushes or a monotone fixpoint. R16.2-edge-filter the cycle detector drops a collected reference only on a miss in the common-type table; R16.7 every variable index is the range index of its slice, bounded by a dominating comparison with its length, or counted from the end under a length fact. Explicit panics and wire-struct nil dereferences in these packages are decided under C10. Not decided: " +
+			"a counter loop, a queue drain with bounded pushes or a monotone fixpoint. R16.2-edge-filter the cycle detector drops a collected reference only on a miss in the common-type table; R16.2-namespace-agreement the inliner descends into a looked-up common type with the namespace of the path it was looked up under; R16.7 every variable index is the range index of its slice, bounded by a dominating comparison with its length, or counted from the end under a length fact. Explicit panics and wire-struct nil dereferences in these packages are decided under C10. Not decided: " +
 			"stack depth of structural recursion over deep policy ASTs (C10 F6).",
 		Run: runC16,
 	})
